@@ -24,9 +24,11 @@ class Ctx:
     def tpat(s, n, **kw): return s.mk(s.TP, n, **kw)
 
 # scrutinee type descriptions: 'b' bool, 'i' int32, ('t', [..]) tuple
+ENUM = ('E', [('V0', []), ('V1', ['i']), ('V2', [])])      # enum E { V0, V1(int32), V2 }
 def ty_value(c, t):
     if t == 'b': return c.tybool()
     if t == 'i': return c.tyint()
+    if t == 'e': return c.ty('TEnum', mkstr(ENUM[0]))
     return c.tytuple([ty_value(c, x) for x in t[1]])
 
 class Gen:
@@ -50,13 +52,19 @@ class Gen:
             p, d, cnd, b = s.pat(st, sval[i], depth - 1, row); items.append(p); descs.append(d); conds.append(cnd); binds += b
         return c.tpat('PTuple', items=PyVec(items), ty=tyv), ('tuple', descs), z3.And(*conds), binds
 
+class EnumVal:
+    def __init__(s, tag, payload): s.tag, s.payload = tag, payload
 def sym_scrutinee(t, path='s'):
     if t == 'b': return z3.Bool(path)
     if t == 'i': return z3.Int(path)
+    if t == 'e': return EnumVal(z3.Int(path + '_tag'), z3.Int(path + '_p'))
     return [sym_scrutinee(x, '%s_%d' % (path, i)) for i, x in enumerate(t[1])]
-def scrut_vars(v): return [v] if not isinstance(v, list) else [y for x in v for y in scrut_vars(x)]
+def scrut_vars(v):
+    if isinstance(v, EnumVal): return [v.tag, v.payload]
+    return [v] if not isinstance(v, list) else [y for x in v for y in scrut_vars(x)]
 
 MISSING = -777
+FALLTHROUGH = -888      # an EMatch without default in which no arm matches: the emitted switch does nothing (NOT a failure)
 class Eval:
     """evaluator of the produced core::Expr over a symbolic scrutinee; results are z3 Int terms (booleans as 0/1, tuples as lists)"""
     def __init__(s, c): s.c = c; s.CE = c.CE
@@ -77,15 +85,24 @@ class Eval:
         if n == 'EProj':
             t = s.ev(f['tuple'], env); return t[f['index']]
         if n == 'ETuple': return [s.ev(x, env) for x in f['items'].items]
+        if n == 'EConstr':
+            con = f['constructor']                      # Constructor::Enum(EnumConstructor{type_name, variant, index})
+            return ('ctor', con.fields[0].fields[2])
+        if n == 'EConstrGet':
+            v = s.ev(f['expr'], env)
+            if not isinstance(v, EnumVal): raise Unsupported('core evaluator: EConstrGet on a non-enum value')
+            return v.payload
         if n == 'ECall':
             fn = f['func']; fn = unbox(fn) if isinstance(fn, Agg) and fn.ty == 'Box' else fn
             if s.CE.variants[fn.idx].name == 'EVar' and ms.pystr(fn.fields[0]) == 'missing': return z3.IntVal(MISSING)
             raise Unsupported('core evaluator: call')
         if n == 'EMatch':
             sc = s.ev(f['expr'], env); d = f['default']
-            out = z3.IntVal(MISSING) if d.idx == 0 else s.ev(d.fields[0], env)
+            out = z3.IntVal(FALLTHROUGH) if d.idx == 0 else s.ev(d.fields[0], env)
             for arm in reversed(f['arms'].items):
                 lhs, body = arm.fields; lv = s.ev(lhs, env); bv = s.ev(body, env)
+                if isinstance(lv, tuple) and lv[0] == 'ctor':
+                    out = z3.If(sc.tag == lv[1], bv, out); continue
                 cond = (sc == lv) if not (z3.is_int(lv) and z3.is_bool(sc)) else (sc == (lv != 0))
                 if z3.is_bool(sc) and z3.is_bool(lv): cond = sc == lv
                 out = z3.If(cond, bv, out) if not isinstance(bv, list) else [z3.If(cond, x, y) for x, y in zip(bv, out)]
@@ -98,14 +115,19 @@ class Eval:
 
 def toint(v): return z3.If(v, 1, 0) if z3.is_bool(v) else v
 
-def ob_match(r, tier, seed, sty, rows, depth, bind_row=None):
+def ob_match(r, tier, seed, sty, rows, depth, bind_row=None, flat=False):
     W = e2.fresh_world(CRATES); c = Ctx(W)
     nl = rows * 4
+    uses_enum = 'e' in json.dumps(sty)
     sv = sym_scrutinee(sty); flat_t = []
     def leaf_types(t): return [t] if t in ('b', 'i') else [y for x in t[1] for y in leaf_types(x)]
     lits_b = [z3.Bool('lb%d' % i) for i in range(nl)]; lits_i = [z3.Int('li%d' % i) for i in range(nl)]
     assumptions = [z3.And(x >= -2**31, x < 2**31) for x in lits_i + [v for v in scrut_vars(sv) if z3.is_int(v)]]
-    r.bounds = 'every matrix of %d rows over a scrutinee of type %s; each pattern lazily wildcard / variable / literal with symbolic value / tuple (depth <= %d); scrutinee value symbolic' % (rows, json.dumps(sty), depth)
+    def enum_tags(v):
+        if isinstance(v, EnumVal): return [v.tag]
+        return [y for x in v for y in enum_tags(x)] if isinstance(v, list) else []
+    assumptions += [z3.And(t_ >= 0, t_ < len(ENUM[1])) for t_ in enum_tags(sv)]
+    r.bounds = 'every matrix of %d rows over a scrutinee of type %s; each pattern lazily wildcard / variable / literal with symbolic value / tuple (depth <= %d)%s; scrutinee value symbolic' % (rows, json.dumps(sty), depth, '; flat rows: every row is a tuple of wildcard-or-literal' if flat else '')
     r.assumptions = ['row bodies are distinct integer literals 100+r; a row that binds a variable returns that variable when it is an int, so a wrong binding changes the result',
                      'oracle: first arm in source order whose pattern matches; integer matrices without a catch-all must be rejected with a diagnostic; otherwise no match => missing()',
                      'gensym names, GlobalTypeEnv::new_empty (no enums/structs in scope)']
@@ -122,11 +144,21 @@ def ob_match(r, tier, seed, sty, rows, depth, bind_row=None):
         # patch literal draw to be type directed
         def pat(t, sval, d, row):
             opts = ['wild', 'var', 'lit'] if t in ('b', 'i') else (['wild', 'var', 'tuple'] if d > 0 else ['wild', 'var'])
+            if flat: opts = ['wild', 'lit'] if t in ('b', 'i') else ['tuple']
+            if t == 'e': opts = ['wild', 'c0', 'c1', 'c2'] + ([] if flat else ['var'])
             k = ex.choose([(True, o) for o in opts]); tyv = ty_value(c, t)
             if k == 'wild': return c.tpat('PWild', ty=tyv), '_', z3.BoolVal(True), []
             if k == 'var':
                 name = 'v%d_%d' % (row, len(g.vars)); g.vars.append(name)
                 return c.tpat('PVar', name=mkstr(name), ty=tyv, astptr=ms.NONE()), name, z3.BoolVal(True), [(name, t, sval)]
+            if k in ('c0', 'c1', 'c2'):
+                idx = int(k[1]); vname, vargs = ENUM[1][idx]
+                EC = W.tt.find_adt(['common', 'EnumConstructor'], 'compiler'); CO = W.tt.find_adt(['common', 'Constructor'], 'compiler'); TI = W.tt.find_adt(['tast', 'TastIdent'], 'compiler')
+                con = Agg(CO.key, CO.vindex('Enum'), [Agg(EC.key, 0, [Agg(TI.key, 0, [mkstr(ENUM[0])]), Agg(TI.key, 0, [mkstr(vname)]), idx])])
+                subs, ds, cs, bs = [], [], [sval.tag == idx], []
+                for st in vargs:
+                    p_, d_, cn, b = pat(st, sval.payload, d - 1, row); subs.append(p_); ds.append(d_); cs.append(cn); bs += b
+                return c.tpat('PConstr', constructor=con, args=PyVec(subs), ty=tyv), '%s(%s)' % (vname, ', '.join(map(str, ds))), z3.And(*cs), bs
             if k == 'lit':
                 lv = lit_for(t)
                 return c.tpat('PPrim', value=c.prim('Bool' if t == 'b' else 'Int32', lv), ty=tyv), 'lit(%s)' % lv, sval == lv, []
@@ -143,6 +175,13 @@ def ob_match(r, tier, seed, sty, rows, depth, bind_row=None):
                 body = c.texpr('EPrim', value=c.prim('Int32', 100 + row), ty=c.tyint()); bval = z3.IntVal(100 + row)
             arms.append(Agg(c.TA.key, 0, [p, body])); conds.append(cond); bodies.append(bval); descs.append(d)
         genv = ex.call('env::GlobalTypeEnv::new_empty', [])
+        if uses_enum:
+            ED = W.tt.find_adt(['env', 'EnumDef'], 'compiler'); TI = W.tt.find_adt(['tast', 'TastIdent'], 'compiler')
+            GTE = W.tt.find_adt(['env', 'GlobalTypeEnv'], 'compiler'); TEN = W.tt.find_adt(['env', 'TypeEnv'], 'compiler')
+            edef = Agg(ED.key, 0, [Agg(TI.key, 0, [mkstr(ENUM[0])]), PyVec([]), PyVec([Agg('tuple', 0, [Agg(TI.key, 0, [mkstr(vn)]), PyVec([ty_value(c, a) for a in va])]) for vn, va in ENUM[1]])])
+            te = genv.fields[[f[0] for f in GTE.variants[0].fields].index('type_env')]
+            em = te.fields[[f[0] for f in TEN.variants[0].fields].index('enums')]
+            em.keys.append(Agg(TI.key, 0, [mkstr(ENUM[0])])); em.vals.append(edef)
         DI = W.tt.find_adt(['diagnostics', 'Diagnostics'], 'diagnostics')
         h = {0: genv, 1: Agg('compiler::env::Gensym', 0, [Cell_(0)]), 2: Agg(DI.key, 0, [PyVec([])]), 3: c.tyint(), 4: PyVec(arms), 5: mkstr('s')}
         rws = ex.call('make_rows', [Ref(h, 5), Ref(h, 4)])
@@ -190,6 +229,13 @@ def obligations():
         Ob('O6.1-int-4', 'match compiler == first-match (or rejection), int32 scrutinee, 4 rows', ob_match, ('thorough',), 5, dict(sty='i', rows=4, depth=0)),
         Ob('O6.1-intint-3', 'match compiler == first-match, (int32,int32) scrutinee, 3 rows', ob_match, ('thorough',), 60, dict(sty=('t', ['i', 'i']), rows=3, depth=1)),
         Ob('O6.1-boolbool-4', 'match compiler == first-match, (bool,bool) scrutinee, 4 rows', ob_match, ('thorough',), 200, dict(sty=TB, rows=4, depth=1)),
+        Ob('O6.1-enum-3', 'match compiler == first-match, enum E { V0, V1(int32), V2 } scrutinee, 3 rows (no arm => missing)', ob_match, ('quick', 'thorough'), 10, dict(sty='e', rows=3, depth=1)),
+        Ob('O6.1-boolenum-3-flat', 'match compiler == first-match, (bool, E) scrutinee, 3 flat rows', ob_match, ('quick', 'thorough'), 10, dict(sty=('t', ['b', 'e']), rows=3, depth=2, flat=True)),
+        Ob('O6.1-boolint-4-flat', 'match compiler == first-match, (bool,int32), 4 rows of (wildcard|literal, wildcard|literal)', ob_match, ('quick', 'thorough'), 10, dict(sty=TBI, rows=4, depth=1, flat=True)),
+        Ob('O6.1-intint-4-flat', 'match compiler == first-match, (int32,int32), 4 rows of (wildcard|literal, wildcard|literal)', ob_match, ('quick', 'thorough'), 10, dict(sty=('t', ['i', 'i']), rows=4, depth=1, flat=True)),
+        Ob('O6.1-intintbool-3-flat', 'match compiler == first-match, (int32,int32,bool), 3 flat rows', ob_match, ('quick', 'thorough'), 10, dict(sty=('t', ['i', 'i', 'b']), rows=3, depth=1, flat=True)),
+        Ob('O6.1-boolint-4', 'match compiler == first-match, (bool,int32) scrutinee, 4 rows', ob_match, ('thorough',), 200, dict(sty=TBI, rows=4, depth=1)),
+        Ob('O6.1-intint-4', 'match compiler == first-match, (int32,int32) scrutinee, 4 rows', ob_match, ('thorough',), 300, dict(sty=('t', ['i', 'i']), rows=4, depth=1)),
         Ob('O6.1-nested-3', 'match compiler == first-match, ((bool,int32),bool) scrutinee, 3 rows', ob_match, ('thorough',), 200, dict(sty=('t', [TBI, 'b']), rows=3, depth=2)),
     ]
 
